@@ -177,7 +177,8 @@ def get_schema(dialect: str, base: int, transport: str):
         if base == 6:
             s.configure(location=root + "/openapi.json")
         elif base == 7:
-            s.configure(base_url=root + "/other")
+            # the base URL is given at call time; a call-time base URL is not a notion of the WSGI transport, which gets it configured
+            s.configure(base_url=root + (BASE_PATH[7] if transport == "wsgi" else "/other"))
         else:
             s.configure(base_url=root + BASE_PATH[base])
         if transport == "wsgi":
@@ -269,7 +270,7 @@ def send(el: dict, kwargs: dict, transport: str, pipe: str) -> dict:
     if conf:
         call_kw["headers"] = dict(conf)
     root = _root(transport)
-    if el["base"] == 7:
+    if el["base"] == 7 and transport != "wsgi":
         call_kw["base_url"] = root + BASE_PATH[7]
     d = el["def"]
     loc = d["loc"] if el["kind"] != "body" else "none"
@@ -351,8 +352,6 @@ def run_element(el: dict) -> list[dict]:
             out.append({"pipe": pipe, "transport": "-", "kwargs": "", "error": kwargs["__error__"]})
             continue
         for tr in TRANSPORTS:
-            if el["base"] == 7 and tr == "wsgi":
-                continue  # a call-time base_url is not a notion of the WSGI transport
             o = send(el, kwargs, tr, pipe)
             r = {"pipe": pipe, "transport": tr, "kwargs": repr(kwargs)[:300]}
             if "error" in o:
@@ -998,7 +997,7 @@ def run(ctx: Ctx) -> Outcome:
         trs = sorted({f["transport"] for f in fs})
         ran = sorted({r["transport"] for r in results[ci] if r.get("pipe") == pipe and "transport" in r})
         rest = [t for t in ran if t != "requests"]
-        tr = "all" if trs == ran or trs == ["-"] else "not-requests" if trs == rest else "+".join(trs)
+        tr = "all" if trs == ran or trs == ["-"] else "not-requests" if trs == rest and len(rest) > 1 else "+".join(trs)
         group, dims = site_parts(cases[ci], pipe, aspect)
         pending.append((group, feature, tr, dims, ci, pipe, aspect, trs, fs[0]))
     # universe of judged descriptor dimensions per (group, feature): where the same feature was judged at all
